@@ -25,10 +25,76 @@ impl EdgeList {
         // a recursive tree: every vertex u >= 1 has exactly one arc, to a smaller vertex; vertex 0 has none
         forall|a: int, b: int| #![trigger r.has(a, b)] r.has(a, b) ==> 0 <= b < a < order,
         forall|a: int| #![trigger r.has_out(a)] 1 <= a < order ==> r.has_out(a),
+        forall|a: int, b: int, c: int| #![trigger r.has(a, b), r.has(a, c)] r.has(a, b) && r.has(a, c) ==> b == c,
     @loop 1
     invariant
         order > 1,
         forall|p: (usize, usize)| #[trigger] vx_acc1@.contains(p) ==> p.1 < p.0 && p.0 < vx_x1,
         forall|a: int| #![trigger set_has_out(vx_acc1@, a)] 1 <= a < vx_x1 ==> set_has_out(vx_acc1@, a),
+        // at most one arc per tail: each iteration inserts one arc whose tail vx_x1 is fresh
+        forall|p: (usize, usize), q: (usize, usize)| #![trigger vx_acc1@.contains(p), vx_acc1@.contains(q)]
+            vx_acc1@.contains(p) && vx_acc1@.contains(q) && p.0 == q.0 ==> p.1 == q.1,
+    @loop_start 1
+        let ghost acc0 = vx_acc1@;
+        let ghost x0 = vx_x1;
+        assert(1 <= vx_x1 < order);
+    @loop_end 1
+        proof { lemma_set_tree_step(acc0, vx_acc1@, x0 as int, vx_s1_1); }
     @*/
+
+    /*@fn impl=EdgeList trait=ErdosRenyi name=erdos_renyi loopify=BTreeSet,Vec fuse wrap=chain props=C15,C13
+    ensures
+        order >= 1,
+        r.wf(),
+        r.ord() == order,
+    @fn_start
+        broadcast use vstd::std_specs::iter::group_iter_axioms;
+    @loop 1
+    invariant
+        order > 0,
+        forall|q: (usize, usize)| #[trigger] vx_acc1@.contains(q) ==> q.0 < order && q.1 < order && q.0 != q.1,
+    @loop 2
+    invariant
+        order > 0,
+        u < order,
+        it2.iter.obeys_prophetic_iter_laws(),
+        it2.iter.decrease() is Some,
+        forall|i: int| 0 <= i < it2.seq().len() ==> (#[trigger] it2.seq()[i]).0 == u && it2.seq()[i].1 < order && it2.seq()[i].1 != u,
+        forall|q: (usize, usize)| #[trigger] vx_acc1@.contains(q) ==> q.0 < order && q.1 < order && q.0 != q.1,
+    @loop_start 2
+        assert(vx_x2 == it2.seq()[it2.index@]);
+    @loop 3
+    invariant
+        order > 0,
+        u < order,
+        it3.iter.obeys_prophetic_iter_laws(),
+        it3.iter.decrease() is Some,
+        // the candidates v are the vertices other than u
+        forall|j: int| 0 <= j < it3.seq().len() ==> #[trigger] it3.seq()[j] < order && it3.seq()[j] != u,
+        forall|i: int| 0 <= i < vx_acc2@.len() ==> (#[trigger] vx_acc2@[i]).0 == u && vx_acc2@[i].1 < order && vx_acc2@[i].1 != u,
+    @loop_start 3
+        assert(vx_x3 == it3.seq()[it3.index@]);
+    @*/
+}
+
+/// inserting the arc (u, q) keeps the out-arc witnesses of the earlier vertices and gives u its own
+/// (stated as an implication so that a failing premise surfaces at the loop invariant, not at this hint)
+proof fn lemma_set_tree_step(s0: Set<(usize, usize)>, s1: Set<(usize, usize)>, u: int, arc: (usize, usize))
+    ensures
+        (s1 == s0.insert(arc) && arc.0 == u
+            && (forall|a: int| #![trigger set_has_out(s0, a)] 1 <= a < u ==> set_has_out(s0, a)))
+        ==> (forall|a: int| #![trigger set_has_out(s1, a)] 1 <= a < u + 1 ==> set_has_out(s1, a)),
+{
+    if s1 == s0.insert(arc) && arc.0 == u
+        && (forall|a: int| #![trigger set_has_out(s0, a)] 1 <= a < u ==> set_has_out(s0, a)) {
+        assert forall|a: int| #![trigger set_has_out(s1, a)] 1 <= a < u + 1 implies set_has_out(s1, a) by {
+            if a < u {
+                assert(set_has_out(s0, a));
+                let b = choose|b: int| 0 <= a <= usize::MAX && 0 <= b <= usize::MAX && #[trigger] s0.contains((a as usize, b as usize));
+                assert(s1.contains((a as usize, b as usize)));
+            } else {
+                assert(s1.contains((a as usize, arc.1 as int as usize)));
+            }
+        }
+    }
 }
